@@ -45,6 +45,7 @@ type prattModel struct {
 	Climb     *ssa.Function // expressionWithPrec
 	LoopOp    token.Token   // LEQ or LSS: minPrec OP prec(current)
 	LoopPos   token.Pos
+	LoopIf    *ssa.If
 	Rbp       map[*ssa.Function]rbp
 	Problems  []string
 	PrecNames map[int64]string
@@ -259,6 +260,7 @@ func extractPratt(p *Program) *prattModel {
 		found++
 		m.LoopOp = op
 		m.LoopPos = b.Pos()
+		m.LoopIf = ifi
 	})
 	if found != 1 {
 		m.Problems = append(m.Problems, fmt.Sprintf("expected exactly one loop test `minPrec OP prec(current)` in %s, found %d", shortName(m.Climb), found))
